@@ -5,3 +5,4 @@ pub mod ods;
 pub mod cfb;
 pub mod biff8;
 pub mod xlsb;
+pub mod ovba;
